@@ -69,6 +69,9 @@ LEvalStep ==
            rec == [rule |-> LRuleOf(j.rule), layers |-> LMap(j.layers), out |-> j.out, obs |-> LObsOf(j)] IN
        /\ \A f \in LEvalFails(j, a.modules, a.imports) : Report(f[1], f[2], j.rid)
        /\ IF j.same THEN TRUE ELSE Report("C15", "architecture-changed-by-evaluation", j.rid)
+       \* building and evaluating a rule never alters the LayeredArchitecture it is based on (the object is shared
+       \* by every rule of the episode, so an alteration would also show up in the outcomes of later rules)
+       /\ IF j.def_same THEN TRUE ELSE Report("C05,C15,C16", "layer-definition-changed-by-rule", j.rid)
        /\ results' = IF j.keep THEN (key :> rec) @@ results ELSE results
     /\ UNCHANGED archs
 
